@@ -232,6 +232,59 @@ theorem addNodeW_is_addNode (w : World) (p o : Nat) :
     ∀ q, q ≠ p → (poolNodes (addNodeW w p o) q).map (nodeOf (addNodeW w p o)) = (poolNodes w q).map (nodeOf w) :=
   addNodeW_nodes w p o
 
+theorem isInTopWithNodes_flag (sc : List Score) (hd : Desc sc) (n : Int) (key : Nat) :
+    (isInTopWithNodes sc n key).map Prod.fst = isInTop sc n key := by
+  unfold isInTopWithNodes isInTop
+  by_cases h1 : n ≤ (sc.length : Int)
+  · by_cases h2 : n ≤ 0
+    · simp [h1, h2]
+    · simp only [h1, h2, if_true, if_false, Option.map_some]
+      rw [(topNodesLoop_spec _ key sc hd).2]
+  · simp [h1]
+
+open ZChain.NodePools in
+/-- **the three entry points name the same replicators** (`entry_points_agree`): `IsBlockSharder`,
+`IsBlockSharderFromHash` and the flag of `CanShardBlockWithReplicators` coincide for every (round, hash, sharder), every
+set of magic blocks and every replicator count — in the model by construction: all three read the sharders of ONE
+lookup `mbOf round` (= `GetMagicBlock`, with the view-change offset). The correspondence run asks the real three about
+the same inputs around every starting round and reports `C42:entry-points-disagree-on-replicators` otherwise. -/
+theorem entry_points_agree (nrepl : Int) (w : World) (mbs : ZChain.MagicBlocks.Store) (round : Int)
+    (hash : Option (List Nat)) (key p : Nat) (hmb : mbOf mbs round = some p) :
+    chainIsBlockSharder nrepl w mbs round hash key = chainIsBlockSharderFromHash nrepl w mbs round hash key ∧
+    (chainCanShard nrepl w mbs round hash key).map Prod.fst = chainIsBlockSharderFromHash nrepl w mbs round hash key ∧
+    chainIsBlockSharderFromHash nrepl w mbs round hash key = isBlockSharderW nrepl w p hash key := by
+  refine ⟨rfl, ?_, ?_⟩
+  · unfold chainCanShard chainIsBlockSharderFromHash canShardW isBlockSharderW
+    rw [hmb]
+    by_cases hn : nrepl ≤ 0
+    · simp [hn]
+    · simp only [hn, if_false]
+      cases hs : scoreHashStringW w p hash with
+      | none => rfl
+      | some sc =>
+        simp only
+        apply isInTopWithNodes_flag
+        -- the scored list is the scorer's sorted output (or empty for a hash that does not decode)
+        unfold scoreHashStringW scoreHashW at hs
+        cases hash with
+        | none => simp at hs; subst hs; exact List.Pairwise.nil
+        | some h =>
+          simp only at hs
+          cases hso : scoreObjs w h (poolNodes w p) with
+          | none => simp [hso] at hs
+          | some l => simp only [hso, Option.some.injEq] at hs; subst hs; exact sorted_desc l
+  · unfold chainIsBlockSharderFromHash isBlockSharderW
+    rw [hmb]
+    by_cases hn : nrepl ≤ 0 <;> simp [hn]
+
+/-- the view-change window, concretely: first magic block (pool 0) from round 0, second (pool 1) starting at 100. Block
+rounds 100..103 are still served by pool 0, round 104 is the first served by pool 1. -/
+theorem view_change_window :
+    let mbs := ZChain.MagicBlocks.put (ZChain.MagicBlocks.put ZChain.MagicBlocks.new 0 0) 1 100
+    ZChain.NodePools.mbOf mbs 99 = some 0 ∧ ZChain.NodePools.mbOf mbs 100 = some 0 ∧
+    ZChain.NodePools.mbOf mbs 103 = some 0 ∧ ZChain.NodePools.mbOf mbs 104 = some 1 := by
+  decide
+
 /-- shared objects, concretely: A,B,C,D as objects 1-4 into pool 0; C and D also into pool 1 (their `SetIndex` becomes
 0 and 1); C re-added to pool 0 as a new object 5. Pool 0 still holds A,C,B,D once each, and the answers are those of the
 freshly built pool (`nA nB nC nD` of the examples below). -/
